@@ -23,12 +23,13 @@ THEOREMS = ["field_get_set", "field_frame", "field_rejects", "register_rejects",
             "reg_get_set", "group_views_agree", "group_write_defines_subs", "export_parse_id",
             "config_roundtrip_partial",
             "queries_pure", "run_preserves_wf", "rejected_write_keeps_state",
-            "alt_width_reverse_refuted", "alt_width_revsub_refuted",
+            "alt_width_group_get_set", "alt_width_reverse_refuted", "alt_width_revsub_refuted",
             "alt_width_big_endian_export_refuted"]
 OPN = {1: "set_value", 2: "bitfield.set_value", 3: "bitfield.set_enum_value", 4: "reset_value", 5: "reset_values", 6: "parse",
        7: "parse(export())", 8: "load_yml_config", 9: "get_value", 10: "bitfield.get_value", 11: "bitfield.get_enum_value",
        12: "bitfield.get_hex_value", 13: "get_hex_value", 14: "get_bytes_value", 15: "export", 16: "get_config",
-       17: "get_reg_names", 18: "fresh.parse(export())", 19: "fresh.load_yml_config(get_config())", 20: "read-only queries"}
+       17: "get_reg_names", 18: "fresh.parse(export())", 19: "fresh.load_yml_config(get_config())", 20: "read-only queries",
+       22: "load_yml_config(config returned by the last get_config())"}
 
 
 # ====================================================================================== independent spec helpers
@@ -351,6 +352,34 @@ def ref_model(t):
     return VL([VI(x) for x in t])
 
 
+def cfg_as_model_op(B, cfgv):
+    """the configuration the implementation returned (output of get_config) as the model's load_yml_config operation"""
+    names = [r["name"] for r in B["regs"]]
+    ents = []
+    for e in cfgv[1]:
+        name, kind, body = e[1]
+        i = names.index(name[1])
+        if kind[1] == 0:
+            ents.append(VL([VL([VI(i)]), VI(0), body]))
+        else:
+            fn = [f["name"] for f in B["regs"][i]["fields"]]
+            ents.append(VL([VL([VI(i)]), VI(1), VL([VL([VI(fn.index(p[1][0][1])), p[1][1]]) for p in body[1]])]))
+    return VL([VI(8), VL(ents)])
+
+
+def ops_model(B, ops, tr):
+    """model operations of one case; operation 22 replays the configuration the implementation produced"""
+    out, last = [], None
+    for o, (ov, _) in zip(ops, tr):
+        if o[0] == 22:
+            out.append(cfg_as_model_op(B, last) if last is not None else VL([VI(8), VL([VL([VL([VI(99)]), VI(0), VI(0)])])]))
+        else:
+            out.append(op_model(o))
+        if o[0] == 16:
+            last = ov if ov[0] == "l" else None
+    return out
+
+
 def op_model(op):
     k = op[0]
     if k == 1:
@@ -415,6 +444,8 @@ def op_impl(B, op):
         return [k, op[1]]
     if k == 20:
         return [20, tname(B, op[1])]
+    if k == 22:
+        return [22]
     raise ValueError(k)
 
 
@@ -629,6 +660,7 @@ def oracle_case(B, ops, snap0, trace):
     hits = []
     shape0 = snap0.shape()
     fresh0 = snap0
+    stash_snap = None
     for (sig, msg) in view_checks(B, snap0, "fresh object"):
         hits.append((sig, msg, -1))
     before = snap0
@@ -644,7 +676,7 @@ def oracle_case(B, ops, snap0, trace):
             here += view_checks(B, after, f"after {name}")
         if not ok and out[1] == 3:
             here.append((f"hang:{name}", f"{name} did not return"))
-        if k >= 9:
+        if 9 <= k <= 20:
             if before.regs != after.regs or before.n != after.n:
                 here.append((f"query-mutates:{name}", f"read-only {name} changed the register file"))
         bogus = any(isinstance(a, tuple) and a and a[0] == 99 for a in op[1:2])
@@ -759,31 +791,55 @@ def oracle_case(B, ops, snap0, trace):
                         if "alt-widths" in cls:
                             cls += ":" + alt_mechs(B, (i,), before if k == 7 else fresh0, ref.raw((i,)), 1, True, ref.raw((i,)), post=other)
                         here.append((f"export-parse-roundtrip:{cls}", f"{name}: {r['name']} is {ref.regs[i][2:4]} before and {other.regs[i][2:4]} after the round trip"))
-        if k == 19:
+        if k == 16 and ok:
+            stash_snap = after
+        if k in (19, 22):
+            diff = op[1] if k == 19 else 0
+            ref = after if k == 19 else stash_snap
             if not ok:
-                here.append((f"config-roundtrip-raises:{'diff' if op[1] else 'full'}", f"{name} raised {out}"))
-            else:
-                other = Snap(out)
+                here.append((f"config-roundtrip-raises:{'diff' if diff else 'full'}", f"{name} raised {out}"))
+            elif ref is not None:
+                other = Snap(out) if k == 19 else after
                 for i, r in enumerate(B["regs"]):
                     tiled = sorted((f["off"], f["off"] + f["width"]) for f in r["fields"])
                     covered = bool(tiled) and tiled[0][0] == 0 and tiled[-1][1] == r["width"] and all(a[1] == b[0] for a, b in zip(tiled, tiled[1:]))
                     if r["fields"] and not covered:
                         continue     # bits outside every bit-field are not part of a bit-field configuration
-                    if op[1] and any(s_["reset"] for s_ in r["subs"]):
+                    if diff and any(f["proc"] and f["reset"] for f in r["fields"]):
+                        continue
+                    if diff and any(s_["reset"] for s_ in r["subs"]):
                         continue     # "difference to reset" is undefined for a group: its own reset value ignores the parts
                     if any(spec_int(VS(e[0])) is not None or e[0].startswith("RAW:") for f in r["fields"] for e in f["enums"]):
                         continue     # an enum that is named like a number cannot be told from the number in a configuration
-                    if op[1] and any(f["proc"] and f["reset"] for f in r["fields"]):
-                        continue
-                    if other.regs[i] != after.regs[i]:
-                        cls = klass(B, (i,)) + ("+diff" if op[1] else "")
+                    if other.regs[i] != ref.regs[i]:
+                        cls = klass(B, (i,)) + ("+diff" if diff else "") + ("+hexstring" if r["hex"] else "")
                         if "alt-widths" in cls:
-                            mech = alt_mechs(B, (i,), fresh0, after.log((i,)) if is_int(after.log((i,))) else None, 0, post=other)
-                            if mech == "unexplained" and "reverse" in cls and other.log((i,)) == after.log((i,)):
+                            mech = alt_mechs(B, (i,), fresh0 if k == 19 else None, ref.log((i,)) if is_int(ref.log((i,))) else None, 0, post=other)
+                            if mech == "unexplained" and "reverse" in cls and other.log((i,)) == ref.log((i,)):
                                 # same value, another stored form: the reversal width depends on the magnitude of what was stored
                                 mech = "reversed-value-selects-another-width"
                             cls += ":" + mech
-                        here.append((f"config-roundtrip:{cls}", f"{name}: {r['name']} is {after.regs[i][2:4]}, after loading its own configuration {other.regs[i][2:4]}"))
+                        here.append((f"config-roundtrip:{cls}", f"{name}: {r['name']} is {ref.regs[i][2:4]}, after loading its own "
+                                     f"configuration {other.regs[i][2:4]}"))
+        if k == 8 and len(op[1]) == 1 and op[1][0][1] in (0, 1) and op[1][0][0][0] != 99:
+            # one register given as a number: the configuration means that number (hex digits for config_as_hexstring registers)
+            t, _, v = op[1][0]
+            T = target(B, t)
+            x, known = None, True
+            if T["hex"] and v[0] == "s":
+                if v[1] and all(c in "0123456789abcdefABCDEF" for c in v[1]):
+                    x = 0
+                    for c in v[1]:
+                        x = x * 16 + "0123456789abcdef".index(c.lower())
+                else:
+                    known = False        # other spellings in a hex-string register: no expectation
+            else:
+                x = spec_int(v)
+            if known:
+                here += check_write_int(B, before, after, out, t, x, 0, True,
+                                        f"load_yml_config({{{T['name']}: {v[1]!r}}}){' [config_as_hexstring]' if T['hex'] else ''}",
+                                        "load-cfg" + ("-hexstring" if T["hex"] else ""))
+                here += frame_checks(B, before, after, [t], k)
         for (sig, msg) in here:
             hits.append((sig, msg, idx))
         before = after
@@ -798,6 +854,51 @@ def gen_cases(tier, rng):
     for _ in range(n):
         cases.append({"layout": g.layout(), "nops": rng.choice([1, 2, 3, 5, 8, 8, 12, 12, 16, 20, 30])})
     return g, cases
+
+
+def hexstring_cases():
+    """config_as_hexstring registers and groups (ROTKH/RKTH style) with values whose rendering is ambiguous between number
+    syntaxes: only decimal digits, leading zeros, 0b/0o/0e look-alikes; every value goes through get_config -> load_yml_config
+    into a fresh object (full and diff) and into the same object after reset_values(), and through load_yml_config spellings."""
+    def plain(name, off, width, hexs, reverse=0, fields=None):
+        return {"name": name, "uid": name.lower(), "offset": off, "width": width, "reset": 0, "hidden": 0, "reverse": reverse, "alt": None,
+                "hex": hexs, "subs": [], "fields": fields or [], "extra_fields": []}
+
+    def group(name, off, ns, sw, reverse, rev_sub, alt=None):
+        return {"name": name, "uid": name.lower(), "reverse": reverse, "rev_sub": rev_sub, "alt": alt, "hex": 1, "group_width": ns * sw,
+                "subs": [{"name": f"{name}S{j}", "uid": f"{name.lower()}s{j}", "offset": off + j * sw // 8, "width": sw, "reset": 0, "hidden": 0,
+                          "reverse": 0, "fields": [], "extra_fields": []} for j in range(ns)]}
+    fields = [{"name": "FA", "uid": "fa", "width": 8, "proc": None, "enums": [["TEN", 10], ["SIXTEEN", 16]]},
+              {"name": "FB", "uid": "fb", "width": 12, "proc": 4, "enums": []},
+              {"name": "FC", "uid": "fc", "width": 12, "proc": None, "enums": []}]
+    lays = [
+        {"big": 0, "fuse": 0, "regs": [plain("H", 0, 32, 1), plain("HR", 4, 64, 1, reverse=1), plain("N", 12, 32, 0, fields=fields)]},
+        {"big": 1, "fuse": 0, "regs": [group("G", 0, 4, 32, 0, 0), plain("N", 16, 32, 0, fields=fields)]},
+        {"big": 0, "fuse": 1, "regs": [group("ROTKH", 0, 8, 32, 1, 0), plain("H", 32, 16, 1)]},
+        {"big": 0, "fuse": 0, "regs": [group("K", 0, 4, 32, 1, 1), plain("N", 16, 32, 0, fields=fields)]},
+        {"big": 0, "fuse": 0, "regs": [group("A", 0, 12, 32, 0, 0, alt=[256]), plain("H", 48, 8, 1)]},
+    ]
+    vals = [0x10, 0x100, 0x17, 0xb1, 0x0e1, 0x11, 0x99, 10, 0x1234, 0x0b1, 0x7777]
+    spell = ["10", "0010", "017", "0b1", "0B1", "0e1", "b1", "00000100", "0x10", "0o17", "1_0", " 10 ", "99"]
+    out = []
+    for lay in lays:
+        ops = []
+        hexregs = [i for i, r in enumerate(lay["regs"]) if r["hex"]]
+        for n, v in enumerate(vals):
+            for i in hexregs:
+                w = lay["regs"][i].get("width") or lay["regs"][i]["group_width"]
+                ops.append((1, (i,), VI(v if v < (1 << w) else v & ((1 << w) - 1)), 0))
+            if any(not r["hex"] for r in lay["regs"]):
+                i = [j for j, r in enumerate(lay["regs"]) if not r["hex"]][0]
+                ops.append((3, (i,), 0, VS("SIXTEEN") if n % 2 else VI(v & 0xFF), 0))
+                ops.append((2, (i,), 1, VI((v & 0xFFF) << 4), 0, 0))
+                ops.append((2, (i,), 2, VS(str(v & 0xFFF)), 0, 0))
+            ops += [(19, 0), (19, 1), (16, 0), (5,), (22,)]
+        for sp in spell:
+            for i in hexregs:
+                ops.append((8, [((i,), n_ % 2, VS(sp)) for n_ in [len(ops)]]))
+        out.append((lay, ops))
+    return out
 
 
 def witness_cases():
@@ -876,7 +977,7 @@ def run(tier):
 
     # ---------------- pass 1: build the objects, learn the layouts as built
     g, cases = gen_cases(tier, rng)
-    wit = witness_cases()
+    wit = witness_cases() + hexstring_cases()
     nwit = len(wit)
     if tier == "thorough":
         wit = wit + exhaustive_cases(16, 0, 0) + exhaustive_cases(16, 1, 1) + exhaustive_cases(8, 1, 0)
@@ -939,8 +1040,8 @@ def run(tier):
     ndis = 0
     if model_ok:
         try:
-            exprs = [f"run_case 1 [{vlib.coq_lit(bv)}; {vlib.coq_lit(VL([op_model(o) for o in ops]))}]"
-                     for (lay, bv, B, ops, _, _) in plan]
+            exprs = [f"run_case 1 [{vlib.coq_lit(bv)}; {vlib.coq_lit(VL(ops_model(B, ops, tr)))}]"
+                     for (lay, bv, B, ops, _, _), (snap0, tr, bv2) in zip(plan, impl)]
             mres = vlib.run_model_cases("c11", "Value RegsModel", exprs, shard=40 if tier == "quick" else 60, timeout=1500, jobs=8)
             for (lay, bv, B, ops, _, _), (snap0, tr, bv2), m in zip(plan, impl, mres):
                 bad = None
@@ -981,7 +1082,7 @@ def run(tier):
         for (lay, bv, B, ops, _, _), (snap0, tr, _) in list(zip(plan, impl))[lo:hi]:
             nops += len(ops)
             if any(tr[i][1] != (tr[i - 1][1] if i else snap0) for i in range(len(tr))):
-                distinct.add(repr((bv, [op_model(o) for o in ops])))
+                distinct.add(repr((bv, [op_impl(B, o) for o in ops])))
         samples = [{"layout": plan[i][0], "ops": [op_replay(plan[i][2], o) for o in plan[i][3]][:6]} for i in range(lo, min(hi, lo + 2))]
         rep.add_stream(name, hi - lo, len(distinct), samples=samples, exhaustive=exhaustive, extra={"operations": nops})
     classes = {}
@@ -989,7 +1090,7 @@ def run(tier):
         for t in all_targets(B):
             c = klass(B, t)
             classes[c] = classes.get(c, 0) + 1
-    account("fixed witnesses of the recorded findings and of the repaired one (C11-F2)", 0, nwit, True)
+    account("fixed witnesses of the recorded and repaired findings; config_as_hexstring registers/groups with ambiguous number syntaxes", 0, nwit, True)
     account("every bit-field position of a small register x boundary values x every write path", nwit, len(wit), True)
     account("operation sequences on random layouts", len(wit), len(plan), False)
     rep.coverage["operation_kinds"] = opkinds
